@@ -131,10 +131,10 @@ HELPER_SPECS = {
         ((), (), 'g1 = new_block', ('args.P',)),
         # : g0 = new_block(args.N)
         ((), (), 'g0 = new_block', ('args.N',)),
-        # : add_clauses_from(([c0] for c0 in g1))
-        ((), (), 'add_clauses_from', ('([c0] for c0 in g1)',)),
-        # : add_clauses_from(([-c0] for c0 in g0))
-        ((), (), 'add_clauses_from', ('([-c0] for c0 in g0)',)),
+        # : add_clauses_from([[c0] for c0 in g1])
+        ((), (), 'add_clauses_from', ('[[c0] for c0 in g1]',)),
+        # : add_clauses_from([[-c0] for c0 in g0])
+        ((), (), 'add_clauses_from', ('[[-c0] for c0 in g0]',)),
         # : return(F)
         ((), (), 'return', ('F',)),
     ],
@@ -149,8 +149,8 @@ HELPER_SPECS = {
         ((), (), 'g1 = new_block', ('args.P',)),
         # : g0 = new_block(args.N)
         ((), (), 'g0 = new_block', ('args.N',)),
-        # : add_clause(g1 + (-c0 for c0 in g0))
-        ((), (), 'add_clause', ('g1 + (-c0 for c0 in g0)',)),
+        # : add_clause([-c0 for c0 in g0] + g1)
+        ((), (), 'add_clause', ('[-c0 for c0 in g0] + g1',)),
         # : return(F)
         ((), (), 'return', ('F',)),
     ],
